@@ -15,7 +15,7 @@ POS = ('Ok', 'OkUpdateDeferred')
 
 NEED = {'invalid', 'throttled-request', 'started-request', 'already-running-check', 'already-running-reboot', 'scheduled-check',
         'reboot', 'ondemand-upgrade', 'minimum-wait', 'report-ok', 'report-skipped'}
-PLAN_LABELS = {'quick': ['requests-no-reboot', 'requests-reboot-wait', 'two-iterations-no-requests-no-reboot', 'reboot-wait-two-rounds', 'requested-check-then-request-in-reboot-wait', 'startup-report-two-iterations'],
+PLAN_LABELS = {'quick': ['requests-no-reboot', 'requests-reboot-wait', 'two-iterations-no-requests-no-reboot', 'reboot-wait-two-rounds', 'requested-check-then-request-in-reboot-wait', 'two-requests-during-check', 'control-channel-closed', 'startup-report-two-iterations'],
                'thorough': ['two-requests-no-reboot', 'two-requests-reboot-wait', 'two-iterations-one-request']}
 
 
@@ -37,17 +37,19 @@ def pendable(name):
     return name.endswith('Timer>::wait_for') or name.endswith('Timer>::wait_until')
 
 
-def explore_run(chk, nctl=1, unroll=2, max_pending=1, max_paths=30000, polls=6, assume=None, iters=None, pend_policy=None):
+def explore_run(chk, nctl=1, unroll=2, max_pending=1, max_paths=30000, polls=6, assume=None, iters=None, pend_policy=None, may_close=False, ctl_policy=None, stop_at_first_reboot_question=False):
     def shape(o, t):
         return 1
     iters = unroll if iters is None else iters
 
     def stop_when(st, key):
+        if stop_at_first_reboot_question and key.endswith('::reboot_allowed'):
+            return True
         if key.endswith('::update_check_allowed'):
             return len([e for e in st.trace if e.kind == 'env' and e.name.endswith('::update_check_allowed')]) > iters
         return False
     cfg = dict(unroll=unroll, env_assume=assume or mk_assume('sut'), shape=shape, max_paths=max_paths, on_budget='stop',
-               pendable=pendable, max_pending=max_pending, max_control_requests=nctl, stop_when=stop_when, pend_policy=pend_policy)
+               pendable=pendable, max_pending=max_pending, max_control_requests=nctl, stop_when=stop_when, pend_policy=pend_policy, control_may_close=may_close, ctl_policy=ctl_policy)
     ex = make_sm_executor(chk, cfg, cuts=('persist', 'appset', 'sut', 'ping', 'select'))
     fn = find_method(ex, 'StateMachine::run')
     sm = Tree({}, 'sm', 'StateMachine')
@@ -173,6 +175,22 @@ def monitor_run(chk, tier):
         if name.endswith('Timer>::wait_until'):
             return 'pend'
         return 'both'
+    def during_check_policy(st, name, key):
+        """a scheduled check (its timers fire) that stays pending while requests arrive; then the reboot wait with
+        the ping time bound never coming"""
+        in_reboot = any(e.kind == 'env' and e.name.endswith('::reboot_allowed') for e in st.trace)
+        if name == 'start_update_check':
+            return 'both'
+        if not in_reboot:
+            return 'fire'
+        if name.endswith('Timer>::wait_until'):
+            return 'pend'
+        return 'both'
+
+    def requests_only_during_check(st, n):
+        started = any(e.kind == 'env' and e.name == 'start_update_check' for e in st.trace)
+        over = any(e.kind == 'env' and e.name.endswith('::reboot_allowed') for e in st.trace)
+        return started and not over
     # several explorations, each symbolic in one group of dimensions (the others fixed as stated)
     plans = [
         dict(label='requests-no-reboot', nctl=1, unroll=1, assume=with_reboot(False, finish_time=False), max_paths=20000),
@@ -180,6 +198,8 @@ def monitor_run(chk, tier):
         dict(label='two-iterations-no-requests-no-reboot', nctl=0, unroll=2, assume=with_reboot(False, finish_time=False), max_paths=20000, polls=4),
         dict(label='reboot-wait-two-rounds', nctl=1, unroll=2, iters=1, assume=with_reboot(True, finish_time=False, plain_timing=True), max_paths=40000, polls=3, max_pending=0, pend_policy=reboot_wait_policy),
         dict(label='requested-check-then-request-in-reboot-wait', nctl=2, unroll=2, iters=1, assume=with_reboot(True, finish_time=False, plain_timing=True), max_paths=40000, polls=3, max_pending=0, pend_policy=requested_check_policy),
+        dict(label='two-requests-during-check', nctl=2, unroll=3, iters=1, stop_at_first_reboot_question=True, assume=with_reboot(True, finish_time=False, plain_timing=True), max_paths=40000, polls=4, max_pending=2, pend_policy=during_check_policy, ctl_policy=requests_only_during_check),
+        dict(label='control-channel-closed', nctl=0, unroll=1, iters=1, assume=with_reboot(False, finish_time=False, plain_timing=False), max_paths=20000, may_close=True),
         dict(label='startup-report-two-iterations', nctl=0, unroll=2, assume=with_reboot(False, negative=True), max_paths=20000, max_pending=0),
     ]
     if tier == 'thorough':
@@ -197,7 +217,7 @@ def monitor_run(chk, tier):
             raise Inconclusive('no exploration plan named %s' % single)
     for plan in plans:
         t_plan = time.time()
-        ex, res = explore_run(chk, nctl=plan['nctl'], unroll=plan['unroll'], max_pending=plan.get('max_pending', 1), max_paths=plan['max_paths'], assume=plan['assume'], polls=plan.get('polls', 6), pend_policy=plan.get('pend_policy'), iters=plan.get('iters'))
+        ex, res = explore_run(chk, nctl=plan['nctl'], unroll=plan['unroll'], max_pending=plan.get('max_pending', 1), max_paths=plan['max_paths'], assume=plan['assume'], polls=plan.get('polls', 6), pend_policy=plan.get('pend_policy'), iters=plan.get('iters'), may_close=plan.get('may_close', False), ctl_policy=plan.get('ctl_policy'), stop_at_first_reboot_question=plan.get('stop_at_first_reboot_question', False))
         for n_, o in obs.items():
             if n_ not in Ds:
                 Ds[n_] = Decide(chk, ex, o, cross=False)
@@ -239,15 +259,24 @@ def check_path(ex, st, steps, Ds, cover):
     av = [s for s in steps if s.name == 'all_valid']
     if not av or steps[0].name != 'all_valid':
         return bad('invalid-apps-never-start', 'validity of the app set is not the first thing checked')
-    valid = dval(ex, st, z3.Bool(av[0].e.out))
+    valid_t = z3.Bool(av[0].e.out)
+    valid = dval(ex, st, valid_t)
     if valid == 0:
         cover.add('invalid')
         if len(steps) != 1 or st.status != 'done':
             bad('invalid-apps-never-start', 'state machine did something with an invalid app set')
         return
     if valid is None:
-        Ds['run-explored'].failed = Ds['run-explored'].failed or ('inconclusive', 'validity undecided', None, st)
-        return
+        # the code did not branch on the answer (or the branches were merged): whatever it did after asking, it
+        # may only have done for a valid app set; stopping at once only for an invalid one
+        if len(steps) != 1 or st.status != 'done':
+            Ds['invalid-apps-never-start'].require(st, valid_t, 'the state machine goes on only with a valid app set')
+        else:
+            Ds['invalid-apps-never-start'].require(st, z3.Not(valid_t), 'the state machine ends at once only for an invalid app set')
+        if ex.check(st, [valid_t]) != 'sat':
+            return
+        st = st.clone()
+        st.pc.append(valid_t)
     # ---- startup: waited-for-reboot bookkeeping
     waited_report(ex, st, steps, Ds['waited-for-reboot-report'], cover, bad)
     # ---- walk
